@@ -7,7 +7,7 @@ from hypothesis.stateful import RuleBasedStateMachine, initialize, rule
 
 from vlib import gen, postsel
 from vlib.build import apply_real, build_real
-from vlib.harness import MachineSpec, RecordingMixin, Sub, Violation, unexpected
+from vlib.harness import MachineSpec, RecordingMixin, Sub, Violation, call, unexpected
 
 PROPERTY = "C11"
 RULE = ("Rule-based state machine holding one long-lived Sampler, QuickSampler and Analyzer. Reconfiguration "
@@ -304,6 +304,22 @@ class C11Machine(RecordingMixin, RuleBasedStateMachine):
         self.analyzer.post_selection = postsel.to_real(ps)
         self.changed("post-selection/detector-mode")
 
+    def do_quick_ps_add(self, mode, count):
+        """The PostSelection object held by the QuickSampler is edited in place (a rule is added)."""
+        import copy
+        n = self.circ.input_modes
+        if n == 0 or self.ps is None or "rules" not in self.ps:
+            return
+        mode = mode % n
+        if not self.ps.get("multi") and any(mode in r[0] for r in self.ps["rules"]):
+            return
+        ps = copy.deepcopy(self.ps)
+        ps["rules"].append([[mode], [count]])
+        call("PostSelection.add on the object held by the QuickSampler", self.quick.post_select.add, mode, count)
+        call("PostSelection.add on the object held by the Analyzer", self.analyzer.post_selection.add, mode, count)
+        self.ps = ps
+        self.changed("post-selection-edited-in-place")
+
     def do_quick_pc(self, pc):
         self.pc = pc
         self.quick.photon_counting = pc
@@ -508,6 +524,24 @@ class C11Machine(RecordingMixin, RuleBasedStateMachine):
         self.step("analyze", use_expected=exp, occ2=[0, 1, 1])
         self.step("read", which="quick")
         self.step("sample", which="N_outputs", seed=useed, n=20)
+
+    @rule(mode=st.integers(0, 5), count=st.integers(0, 2))
+    def r_quick_ps_add(self, mode, count):
+        if self.ready:
+            self.step("quick_ps_add", mode=mode, count=count)
+
+    @rule(m0=st.integers(0, 5), c0=st.integers(0, 1), mode=st.integers(0, 5), count=st.integers(0, 2),
+          multi=st.booleans(), seed=st.integers(0, 2 ** 20))
+    def r_read_ps_add_read(self, m0, c0, mode, count, multi, seed):
+        """cached QuickSampler distribution -> a rule is added to the held PostSelection object -> read / sample"""
+        if not self.ready or self.circ.input_modes == 0:
+            return
+        n = self.circ.input_modes
+        self.step("quick_cfg", ps={"rules": [[[m0 % n], [c0]]], "multi": multi}, pc=self.pc)
+        self.step("read", which="quick")
+        self.step("quick_ps_add", mode=mode, count=count)
+        self.step("read", which="quick")
+        self.step("sample", which="quick.N_outputs", seed=seed, n=20)
 
     @rule(pc=st.booleans())
     def r_quick_pc_only(self, pc):
